@@ -14,9 +14,21 @@
   fewer than 2^53 reported packets: IEEE rounding is monotone and the identity on representable
   values (the counts convert exactly, the limit is a double), so the double comparison is at
   least as strict as the exact one.
+
+  `C02_monitor_accepts_model`: the executable monitor `C02.monitor` (Spec/C02.lean, the one the
+  driver runs on the implementation's traces) returns `none` on the model's OWN trace
+  `LL.modelTrace` (the records the driver would build from the model) for every machine set,
+  configuration, oracle and history — single events and batches, faulting calls included (the
+  monitor stops at the first call that did not return ok) — with fewer than 2^53 reported packets.
+  So the monitor cannot raise a false alarm on an implementation that agrees with the model, and
+  the model satisfies the property in the monitor's own vocabulary (exact rational fractions).
+  The bound is genuinely needed: `C02_monitor_rejects_beyond_2p53` is a model trace with 2^53+2
+  reported packets that the monitor rejects (above 2^53 the u64 -> f64 conversion of the counts
+  rounds, and the code's quotient can fall below a limit that the exact fraction has reached).
 -/
 import MbVerif.Proofs.C02
 import MbVerif.Proofs.C02Exact
+import MbVerif.Proofs.MonitorAcceptC
 
 namespace Mb.C02
 open Mb
@@ -115,5 +127,94 @@ theorem C02_exact (ms : List Machine) (fp fb : F64) (t0 : Int) (rng : σ) (h : L
 example : (Acct.ofFw (Fw.init0 (σ := Unit)
     [{ allowedPaddingPackets := 1, maxPaddingFrac := 0, allowedBlockedMicrosec := 0, maxBlockingFrac := 0, states := [] }]
     0 0 0 ())).2.length = 1 := rfl
+
+/-! ### the monitor on the model's own trace -/
+
+/-- **`C02.monitor` accepts the model's own trace**: for every machine set, fractions, start time,
+    oracle and history of calls (single events and batches, arbitrary clocks, faulting calls) the
+    monitor applied to the trace of the model (`LL.modelTrace`: per call the events, outcome,
+    returned actions, snapshot and log, as the driver records them) reports no violation.
+
+    Hypothesis `hsmall` (fewer than 2^53 reported packets, `NormalSent` or `PaddingSent` with any id,
+    in the whole history): the monitor compares exact rational fractions, the model (like the code)
+    divides the two counts as doubles; the two agree as long as the counts convert exactly
+    (`below_exact`). Beyond that the double test can pass where the exact one fails: see
+    `C02_monitor_rejects_beyond_2p53` below. No other hypothesis: machines need not be validated,
+    and the recount of the monitor covers batches and unknown ids exactly as the accounting does. -/
+theorem C02_monitor_accepts_model (ms : List Machine) (fp fb : F64) (t0 : Int) (rng : σ) (h : List Call)
+    (hsmall : countPadAll (events h) + countNormal (events h) < 2 ^ 53) :
+    monitor (LL.modelTrace ρ ms fp fb t0 rng h) = none :=
+  C02acc.monitor_model ρ ms fp fb t0 rng h hsmall
+
+section MonitorDemo
+
+private def dZero : Dist := { dist := .uniform 0 0, start := 0, max := 0 }
+/-- the double 0.5 -/
+private def half : F64 := 4602678819172646912
+/-- the largest double below 1, 1 - 2^-53 -/
+private def belowOne : F64 := 4607182418800017407
+/-- one state: SendPadding; NormalSent (event 3) and PaddingSent (event 4) lead back to it -/
+private def pSt : State :=
+  { action := some (.sendPadding false false dZero none), counterA := none, counterB := none,
+    transitions := ((List.replicate 13 none).set 3 (some [{ target := 0, prob := 1065353216 }])).set 4
+      (some [{ target := 0, prob := 1065353216 }]) }
+/-- budget of one padding packet, padding fraction 0.5 -/
+private def pM : Machine :=
+  { allowedPaddingPackets := 1, maxPaddingFrac := half, allowedBlockedMicrosec := 0, maxBlockingFrac := 0,
+    states := [pSt] }
+private def dρ : Oracle Unit := { u := fun _ => (0, ()), d := fun _ _ => (0, ()) }
+/-- framework-wide fraction 0.5 as well -/
+private def pTrace : FwTrace :=
+  LL.modelTrace dρ [pM] half 0 0 () [([.normalSent], 10), ([.paddingSent 0], 20), ([.normalSent, .normalSent], 30),
+    ([.normalSent], 40), ([.paddingSent 0], 50), ([.paddingSent 5], 60), ([.normalSent], 70)]
+
+/-- Non-vacuity of `C02_monitor_accepts_model`: no call faults, so the monitor walks all seven.
+    Call 1 pads within the budget; call 2 (the machine's own PaddingSent: 1 of 2 packets, fraction
+    exactly 0.5) is denied; call 3 is a batch (recounted, not tested); calls 4, 5 and 7 pad with the
+    budget used up, i.e. on the fraction branch (1/5, 2/5, 2/6 and framework-wide 3/7); call 6 is a
+    PaddingSent for an id no machine has (counted framework-wide only). The monitor accepts; it
+    rejects the same trace when call 2 is made to return a SendPadding, does not test that action
+    in the batch call 3, and stops at a call that did not return ok. -/
+example : pTrace.calls.map (·.res) = [.ok, .ok, .ok, .ok, .ok, .ok, .ok] ∧
+    pTrace.calls.map (·.actions) =
+      [[.sendPadding 0 false false 0], [], [.sendPadding 0 false false 0], [.sendPadding 0 false false 0],
+       [.sendPadding 0 false false 0], [], [.sendPadding 0 false false 0]] ∧
+    monitor pTrace = none ∧
+    (padOK pM half 1 4 1 = true ∧ decide (1 < pM.allowedPaddingPackets) = false) ∧
+    (monitor { pTrace with calls := pTrace.calls.mapIdx (fun i c =>
+        if i = 1 then { c with actions := [.sendPadding 0 false false 0] } else c) }).isSome = true ∧
+    monitor { pTrace with calls := pTrace.calls.mapIdx (fun i c =>
+        if i = 2 then { c with actions := [.sendPadding 0 false false 0, .sendPadding 0 false false 0] } else c) } = none ∧
+    monitor { pTrace with calls := pTrace.calls.mapIdx (fun i c =>
+        if i = 0 then { c with res := .panic "x" }
+        else if i = 1 then { c with actions := [.sendPadding 0 false false 0] } else c) } = none := by
+  decide +kernel
+
+/-- no budget, no machine fraction; the framework-wide fraction is 1 - 2^-53 -/
+private def wM : Machine :=
+  { allowedPaddingPackets := 0, maxPaddingFrac := 0, allowedBlockedMicrosec := 0, maxBlockingFrac := 0,
+    states := [pSt] }
+
+/-- The comparison itself at 2^53+1 paddings of 2^53+2 packets and the limit 1 - 2^-53: the
+    numerator rounds to 2^53, the double quotient is 1 - 2^-52 < limit, the exact fraction
+    1 - 1/(2^53+2) has reached the limit. -/
+example : belowF (2 ^ 53 + 1) (2 ^ 53 + 2) belowOne = true ∧ below (2 ^ 53 + 1) (2 ^ 53 + 2) belowOne = false := by
+  decide +kernel
+
+/-- **The bound 2^53 in `C02_monitor_accepts_model` cannot be dropped**: one machine without budget,
+    framework-wide padding fraction 1 - 2^-53; a batch of 2^53+1 PaddingSent reports for the unused id
+    7 (the state after it is computed symbolically, `C02acc.triggerEvents_pad_unknown`), then one
+    NormalSent: the model returns SendPadding (kernel-evaluated from the explicit state), and the
+    monitor rejects the call: the exact fraction (2^53+1)/(2^53+2) has reached the limit. The model
+    mirrors the code's `padding_sent as f64 / total as f64`, so this is also how the code behaves
+    after 2^53 packets; the u64 counters cannot get there in any real run. -/
+theorem C02_monitor_rejects_beyond_2p53 :
+    monitor (LL.modelTrace dρ [wM] belowOne 0 0 ()
+      [(List.replicate (2 ^ 53 + 1) (.paddingSent 7), 10), ([.normalSent], 20)]) ≠ none := by
+  refine C02acc.reject_big dρ [wM] belowOne 0 0 () (2 ^ 53 + 1) 7 10 20 .normalSent 0 false false 0 wM
+    (by decide) (by decide) (by decide +kernel) (by decide +kernel) (by decide +kernel) (by decide +kernel)
+    rfl (by decide) (by decide +kernel)
+
+end MonitorDemo
 
 end Mb.C02
